@@ -1,4 +1,7 @@
 import RTV.Lemmas.SpecDecA
+import RTV.Lemmas.SpecDecA0
+import RTV.Lemmas.SpecDecB0
+import RTV.Lemmas.SpecDecD0
 import RTV.Lemmas.SpecDecB
 import RTV.Lemmas.SpecDecC
 import RTV.Lemmas.SpecDecD
@@ -26,15 +29,21 @@ each case expects (`entsAgree`: count, order, every stated field).  `harness/lib
 `implementation = model` on the same inputs, on all of these fields; together: implementation = spec, with the model as
 kernel-checked intermediary.
 
-Two families do NOT meet the full statement, in one resolution field each (the code is modelled as it is):
-* IP: the Specs state `Resolution.type` (`ipv4` / `ipv6`) for every entity; `IpAddressModel.get_resolution` builds
-  `{'value', 'score': str(None)}` — no `type` key at all (`spec_ip_type_absent`).  Everything else agrees
-  (`spec_ip_cases_partial`).  Finding `spec-field:IpAddress:Resolution.type:absent`.
-* boolean: the Specs state the extractor's score (`1.0`, `0.5`, `0.64` …); `ChoiceParser.parse` builds a NEW
-  `ChoiceExtractDataResult(ext_result.data)` and reads its default score, so `recognize_boolean` reports `0.0` for every
-  entity (`spec_boolean_score_differs`).  Everything else agrees (`spec_boolean_cases_partial`).  Finding
-  `spec-field:Boolean:Resolution.score:default`.
-Neither field is compared by the repository's runner, which is why its spec suite passes.
+The boolean score is a float: the model computes it as an exact fraction and it is compared with the decimal text the
+Specs state within 1e-9 (`valAgree`; the implementation's float rounding is not modelled; the correspondence compares
+the implementation's float with the same fraction, and with the Specs text exactly).
+
+Two families did NOT meet the full statement before two one-line fixes of /repo, in one resolution field each (both
+variants of the code are modelled; the check probes which one the tree follows; the statements about the code before
+the fixes are kept as labelled regressions at the end):
+* IP: the Specs state `Resolution.type` (`ipv4` / `ipv6`) for every entity; `IpAddressModel.get_resolution` built
+  `{'value', 'score': str(None)}` — no `type` key at all.  Finding `spec-field:IpAddress:Resolution.type:absent`,
+  fixed by `findings/specs-fields/ip-resolution-type.diff`.
+* boolean: the Specs state the extractor's score (`1.0`, `0.5`, `0.64` …); `ChoiceParser.parse` built a NEW
+  `ChoiceExtractDataResult(ext_result.data)` and read its default score, so `recognize_boolean` reported `0.0` for every
+  entity.  Finding `spec-field:Boolean:Resolution.score:0.0`, fixed by
+  `findings/specs-fields/boolean-score-from-extractor.diff`.
+Neither field is compared by the repository's runner, which is why its spec suite passed all along.
 -/
 namespace RTV.C19
 open RTV.Seq RTV.Gen RTV.Py
@@ -43,36 +52,17 @@ open RTV.Seq RTV.Gen RTV.Py
 entities that agree with the expected ones in count, order, type name, text, offsets where given and every resolution
 field the case states, the keys in `skip` excepted (`entsAgree`). -/
 
-/- FULL statement (fails for the code as it is, see `spec_ip_type_absent`):
-   `FamilyAgrees [] (fun q => some (ipModelRun genSeqEnv false q)) specCases_ipEn` -/
-
-/-- every supported English `IpAddressModel` case: count, order, type name, text and `Resolution.value` agree —
-every stated field except `Resolution.type` -/
-theorem spec_ip_cases_partial : FamilyAgrees [kType] (fun q => some (ipModelRun genSeqEnv false q)) specCases_ipEn := by
+/-- every supported English `IpAddressModel` case, every stated field: count, order, type name, text,
+`Resolution.value` and `Resolution.type` -/
+theorem spec_ip_cases : FamilyAgrees [] (fun q => some (ipModelRun genSeqEnv false true q)) specCases_ipEn := by
   have h : ipOK genSeqEnv false specCases_ipEn = true := by rw [← fastSeqEnv_eq]; exact spec_ip_en_fast
-  exact (ipOK_spec _ _ _ h).1
+  exact ipOK_spec _ _ _ h
 
-/-- NEGATIVE (finding `spec-field:IpAddress:Resolution.type:absent`): every expected entity of every English IP case
-states `Resolution.type`, and no entity the model (= the code) reports carries a `type` key; e.g. `1.1.1.1`:
-expected `{'value': '1.1.1.1', 'type': 'ipv4'}`, reported `{'value': '1.1.1.1', 'score': 'None'}` -/
-theorem spec_ip_type_absent : ∀ c ∈ specCases_ipEn,
-    (∀ e ∈ c.2, (lookupKey kType e.2.2.2.2).isSome = true) ∧
-    ∀ x ∈ ipModelRun genSeqEnv false c.1, lookupKey kType x.res = none := by
-  have h : ipOK genSeqEnv false specCases_ipEn = true := by rw [← fastSeqEnv_eq]; exact spec_ip_en_fast
-  exact (ipOK_spec _ _ _ h).2
-
-/-- the same two statements for the `IpAddressModel` cases of the cultures routed to the Chinese configuration
-(zh-*, ja-*) -/
-theorem spec_ip_cases_zh_partial :
-    FamilyAgrees [kType] (fun q => some (ipModelRun genSeqEnv true q)) specCases_ipZh := by
+/-- every supported `IpAddressModel` case of the cultures routed to the Chinese configuration (zh-*, ja-*), every
+stated field -/
+theorem spec_ip_cases_zh : FamilyAgrees [] (fun q => some (ipModelRun genSeqEnv true true q)) specCases_ipZh := by
   have h : ipOK genSeqEnv true specCases_ipZh = true := by rw [← fastSeqEnv_eq]; exact spec_ip_zh_fast
-  exact (ipOK_spec _ _ _ h).1
-
-theorem spec_ip_type_absent_zh : ∀ c ∈ specCases_ipZh,
-    (∀ e ∈ c.2, (lookupKey kType e.2.2.2.2).isSome = true) ∧
-    ∀ x ∈ ipModelRun genSeqEnv true c.1, lookupKey kType x.res = none := by
-  have h : ipOK genSeqEnv true specCases_ipZh = true := by rw [← fastSeqEnv_eq]; exact spec_ip_zh_fast
-  exact (ipOK_spec _ _ _ h).2
+  exact ipOK_spec _ _ _ h
 
 /-- every supported `GUIDModel` case, every stated field: type name, text, `Resolution.value`, `Resolution.score`
 (the text `'%g' % score`) -/
@@ -80,23 +70,12 @@ theorem spec_guid_cases : FamilyAgrees [] (fun q => some (guidModelRun genSeqEnv
   have h : guidOK genSeqEnv specCases_guid = true := by rw [← fastSeqEnv_eq]; exact spec_guid_fast
   exact guidOK_spec _ _ h
 
-/- FULL statement (fails for the code as it is, see `spec_boolean_score_differs`):
-   `FamilyAgrees [] (boolModelRun RTV.Choice.genEnv) specCases_bool` -/
-
-/-- every supported English `BooleanModel` case: no exception; count, order, type name, text and `Resolution.value`
-agree — every stated field except `Resolution.score` -/
-theorem spec_boolean_cases_partial : FamilyAgrees [kScore] (boolModelRun RTV.Choice.genEnv) specCases_bool := by
+/-- every supported English `BooleanModel` case, every stated field: no exception; count, order, type name, text,
+`Resolution.value`, and `Resolution.score` (the extractor's score as an exact fraction, within 1e-9 of the stated
+decimal) -/
+theorem spec_boolean_cases : FamilyAgrees [] (boolModelRun RTV.Choice.genEnv) specCases_bool := by
   have h : boolOK RTV.Choice.genEnv specCases_bool = true := by rw [← RTV.Choice.fastEnv_eq]; exact spec_bool_fast
-  exact (boolOK_spec _ _ h).1
-
-/-- NEGATIVE (finding `spec-field:Boolean:Resolution.score:default`): for every entity of every boolean case the
-Specs state a score and the reported score (`0.0`, the default of a freshly built `ChoiceExtractDataResult`) is another
-one; e.g. `Sure!`: expected `1.0`, reported `0.0` -/
-theorem spec_boolean_score_differs : ∀ c ∈ specCases_bool, ∃ m, boolModelRun RTV.Choice.genEnv c.1 = some m ∧
-    ∀ p ∈ m.zip c.2, (lookupKey kScore p.2.2.2.2.2).isSome = true ∧
-      lookupKey kScore p.1.res ≠ lookupKey kScore p.2.2.2.2.2 := by
-  have h : boolOK RTV.Choice.genEnv specCases_bool = true := by rw [← RTV.Choice.fastEnv_eq]; exact spec_bool_fast
-  exact (boolOK_spec _ _ h).2
+  exact boolOK_spec _ _ h
 
 /-- every supported English `HashtagModel` case, every stated field -/
 theorem spec_hashtag_cases : FamilyAgrees []
@@ -148,5 +127,49 @@ theorem spec_field_counts :
     (specCases_ipEn.flatMap (·.2)).countP (fun e => (lookupKey kType e.2.2.2.2).isSome) ≥ 15 ∧
     (specCases_guid.flatMap (·.2)).countP (fun e => (lookupKey kScore e.2.2.2.2).isSome) ≥ 10 ∧
     (specCases_bool.flatMap (·.2)).countP (fun e => (lookupKey kScore e.2.2.2.2).isSome) ≥ 10 := by decide +kernel
+
+/-! ### regressions: the code before the two fixes (`ipModelRun … typed := false`, `genEnvPreFix3`) -/
+
+/-- REGRESSION (before `ip-resolution-type.diff`): every stated field of the English IP cases agreed except
+`Resolution.type` … -/
+theorem prefix_spec_ip_cases_partial :
+    FamilyAgrees [kType] (fun q => some (ipModelRun genSeqEnv false false q)) specCases_ipEn := by
+  have h : ipPreFixOK genSeqEnv false specCases_ipEn = true := by rw [← fastSeqEnv_eq]; exact spec_ip_en_prefix_fast
+  exact (ipPreFixOK_spec _ _ _ h).1
+
+/-- REGRESSION (finding `spec-field:IpAddress:Resolution.type:absent`): … every expected entity of every English IP
+case states `Resolution.type`, and no entity the pre-fix model (= code) reported carried a `type` key; e.g. `1.1.1.1`:
+expected `{'value': '1.1.1.1', 'type': 'ipv4'}`, reported `{'value': '1.1.1.1', 'score': 'None'}` -/
+theorem prefix_spec_ip_type_absent : ∀ c ∈ specCases_ipEn,
+    (∀ e ∈ c.2, (lookupKey kType e.2.2.2.2).isSome = true) ∧
+    ∀ x ∈ ipModelRun genSeqEnv false false c.1, lookupKey kType x.res = none := by
+  have h : ipPreFixOK genSeqEnv false specCases_ipEn = true := by rw [← fastSeqEnv_eq]; exact spec_ip_en_prefix_fast
+  exact (ipPreFixOK_spec _ _ _ h).2
+
+/-- REGRESSION: the same two statements for the cultures routed to the Chinese configuration -/
+theorem prefix_spec_ip_zh : FamilyAgrees [kType] (fun q => some (ipModelRun genSeqEnv true false q)) specCases_ipZh ∧
+    ∀ c ∈ specCases_ipZh, (∀ e ∈ c.2, (lookupKey kType e.2.2.2.2).isSome = true) ∧
+      ∀ x ∈ ipModelRun genSeqEnv true false c.1, lookupKey kType x.res = none := by
+  have h : ipPreFixOK genSeqEnv true specCases_ipZh = true := by rw [← fastSeqEnv_eq]; exact spec_ip_zh_prefix_fast
+  exact ipPreFixOK_spec _ _ _ h
+
+/-- REGRESSION (before `boolean-score-from-extractor.diff`): every stated field of the boolean cases agreed except
+`Resolution.score` … -/
+theorem prefix_spec_boolean_cases_partial :
+    FamilyAgrees [kScore] (boolModelRun RTV.Choice.genEnvPreFix3) specCases_bool := by
+  have h : boolPreFixOK RTV.Choice.genEnvPreFix3 specCases_bool = true := by
+    rw [← RTV.Choice.fastEnvPreFix3_eq]; exact spec_bool_prefix_fast
+  exact (boolPreFixOK_spec _ _ h).1
+
+/-- REGRESSION (finding `spec-field:Boolean:Resolution.score:0.0`): … and for every entity of every boolean case the
+Specs state a score while the reported one (`0.0`, the default of a freshly built `ChoiceExtractDataResult`) is not
+within 1e-9 of it; e.g. `Sure!`: expected `1.0`, reported `0.0` -/
+theorem prefix_spec_boolean_score_differs : ∀ c ∈ specCases_bool, ∃ m,
+    boolModelRun RTV.Choice.genEnvPreFix3 c.1 = some m ∧
+    ∀ p ∈ m.zip c.2, ∃ v e, lookupKey kScore p.1.res = some v ∧ lookupKey kScore p.2.2.2.2.2 = some e ∧
+      valAgree v e = false := by
+  have h : boolPreFixOK RTV.Choice.genEnvPreFix3 specCases_bool = true := by
+    rw [← RTV.Choice.fastEnvPreFix3_eq]; exact spec_bool_prefix_fast
+  exact (boolPreFixOK_spec _ _ h).2
 
 end RTV.C19
